@@ -25,7 +25,7 @@ type lin struct {
 	terms map[string]int
 }
 
-func linConst(c int) *lin { return &lin{c: c, terms: map[string]int{}} }
+func linConst(c int) *lin  { return &lin{c: c, terms: map[string]int{}} }
 func linSym(s string) *lin { return &lin{terms: map[string]int{s: 1}} }
 func (a *lin) clone() *lin {
 	b := linConst(a.c)
@@ -243,7 +243,7 @@ type esState struct {
 	done     bool // returned successfully
 	dropped  bool // error path
 	events   []loopEvent
-	brk      int  // loop control: 1 = unlabeled break, 2 = continue / labeled break
+	brk      int // loop control: 1 = unlabeled break, 2 = continue / labeled break
 	segCount *int
 	startLen map[types.Object]int
 	decided  map[string]bool
@@ -289,19 +289,19 @@ type esProblem struct {
 }
 
 type ES struct {
-	c         *Ctx
-	info      *types.Info
-	instrT    *types.Interface
-	genT      *types.Named
-	templates []*esTemplate
-	problems  []esProblem
-	curFn     string
-	segN      int
-	emitters  map[string]bool
-	closures  map[types.Object]*ast.FuncLit
-	entryTail map[string]tailVal
+	c           *Ctx
+	info        *types.Info
+	instrT      *types.Interface
+	genT        *types.Named
+	templates   []*esTemplate
+	problems    []esProblem
+	curFn       string
+	segN        int
+	emitters    map[string]bool
+	closures    map[types.Object]*ast.FuncLit
+	entryTail   map[string]tailVal
 	mayTailJump func(a *atom) bool
-	equalLens map[string]string
+	equalLens   map[string]string
 }
 
 func (es *ES) problem(pos token.Pos, what, detail string) {
@@ -772,7 +772,6 @@ func (es *ES) evalCond(e ast.Expr, st *esState) (known bool, val bool) {
 	return false, false
 }
 
-
 func (es *ES) execSwitch(init ast.Stmt, body *ast.BlockStmt, st *esState, whole ast.Stmt) []*esState {
 	if init != nil {
 		outs := es.execStmt(init, st)
@@ -1049,6 +1048,9 @@ func (es *ES) evalInstr(e ast.Expr, st *esState) *atom {
 		case "PrepareCallInstr":
 			if v := field("nargs", 1); v != nil {
 				a.n = es.evalInt(v, st)
+			}
+			if v := field("skip", 2); v != nil {
+				a.off = es.evalInt(v, st)
 			}
 		case "BreakInstr", "ContinueInstr":
 			if v := field("scopesToPop", 1); v != nil {
@@ -1367,7 +1369,6 @@ func (es *ES) execCall(call *ast.CallExpr, st *esState, _ *ast.Ident) bool {
 	return false
 }
 
-
 // ---------------------------------------------------------------- loops
 
 func (es *ES) execLoop(loop ast.Stmt, body *ast.BlockStmt, ranged string, st *esState) []*esState {
@@ -1451,7 +1452,12 @@ func (es *ES) execLoop(loop ast.Stmt, body *ast.BlockStmt, ranged string, st *es
 		live = append(live, o)
 	}
 	if len(live) == 0 {
-		es.problem(loop.Pos(), "loop body has no success path", fmt.Sprintf("%d outcomes, first dropped=%v done=%v brk=%v", len(outs), len(outs) > 0 && outs[0].dropped, len(outs) > 0 && outs[0].done, func() int { if len(outs) > 0 { return outs[0].brk }; return -1 }()))
+		es.problem(loop.Pos(), "loop body has no success path", fmt.Sprintf("%d outcomes, first dropped=%v done=%v brk=%v", len(outs), len(outs) > 0 && outs[0].dropped, len(outs) > 0 && outs[0].done, func() int {
+			if len(outs) > 0 {
+				return outs[0].brk
+			}
+			return -1
+		}()))
 		return []*esState{st}
 	}
 	// build the post-loop state from the pre-loop state
